@@ -18,6 +18,7 @@ import (
 	"math"
 	"os"
 	"reflect"
+	"runtime"
 	"sort"
 	"strconv"
 	"strings"
@@ -624,6 +625,8 @@ func genDec(a hx.Args) {
 	r := hx.NewRng(a.Seed)
 	per := a.N(16, 60)
 	hangQuota := 3
+	dropped := 0
+	runtime.GOMAXPROCS(4) // pre-screened inputs that loop leave a spinning goroutine behind until gen exits: bound the burn
 	emit := func(e *entry, ver int, b []byte) {
 		hx.Emit("dec %s %d %s", e.name, ver, hx.Hex(nonNil(b)))
 	}
@@ -657,6 +660,7 @@ func genDec(a hx.Args) {
 				// pre-screen: inputs that keep the decoder looping (tag count from the input) are kept only up to a quota
 				if res := decodeOnce(e, ver, b, 40*time.Millisecond); res == "hang" {
 					if hangQuota == 0 {
+						dropped++
 						continue
 					}
 					hangQuota--
@@ -665,6 +669,7 @@ func genDec(a hx.Args) {
 			}
 		}
 	}
+	fmt.Fprintf(os.Stderr, "c16 gen: %d looping inputs dropped by the pre-screen (quota 3 kept)\n", dropped)
 	// small-scope enumeration: every 1-byte input for every type/version (thorough: every 2-byte input for a sample)
 	for i := range registry {
 		e := &registry[i]
